@@ -252,3 +252,31 @@ def lemma_validate_off():
 
 def unit(name, fn):
     return Unit("lemma", f"client.{name}", fn=fn)
+
+
+def lemma_df002_is_identity():
+    """C15: for implemented types the decoded message-number field equals the identity: the leaf value of DF002 at
+    offset 0 (first 12 payload bits, unsigned - L1 contract) is the number identity() prints; for 4076 the leaf value of
+    IDF002 at offset 15 (DF002:12 + IDF001:3, ground-checked) is the sub-type."""
+    from pyvc.state import Obligation
+    extract.ensure_path()
+    C = extract.module("pyrtcm.rtcmtypes_core")
+    arr = ByteArr.get("p")
+    lo = z3.Int("p_lo")
+    st = State()
+    p0, p1, p2 = (byte_at(st, arr, lo + k) for k in range(3))
+    bit = lambda k: arr.bit(z3.simplify(8 * lo + k))
+    expand = [p == bits_to_int([bit(8 * i + (7 - j)) for j in range(8)]) for i, p in enumerate((p0, p1, p2))]  # definition of the bit function
+    out = []
+    w = C.RTCM_DATA_FIELDS["DF002"][1]
+    df002 = bits_to_int([bit(w - 1 - j) for j in range(w)])
+    out.append(Obligation("client.df002_leaf_value_is_identity_number", st.pc + expand + [lo >= 0],
+                          z3.And(z3.BoolVal(w == 12 and C.RTCM_DATA_FIELDS["DF002"][0] == "UINT" and C.RTCM_DATA_FIELDS["DF002"][2] in (0, 1)),
+                                 df002 == p0 * 16 + p1 / 16), kind="lemma"))
+    w1, w2 = C.RTCM_DATA_FIELDS["IDF001"][1], C.RTCM_DATA_FIELDS["IDF002"][1]
+    off = w + w1
+    idf002 = bits_to_int([bit(off + w2 - 1 - j) for j in range(w2)])
+    out.append(Obligation("client.idf002_leaf_value_is_4076_subtype", st.pc + expand + [lo >= 0],
+                          z3.And(z3.BoolVal(off == 15 and w2 == 8 and C.RTCM_DATA_FIELDS["IDF002"][0] == "UINT" and C.RTCM_DATA_FIELDS["IDF002"][2] in (0, 1)),
+                                 idf002 == (p1 % 2) * 128 + p2 / 2), kind="lemma"))
+    return out
